@@ -50,7 +50,7 @@ def ob_time_at(shape, G, tag, budget_s=120):
     return symx.explore(run, budget_s=budget_s)
 
 
-def ob_history(shape, G, budget_s=120):
+def ob_history(shape, G, narrow=False, budget_s=120):
     """a lookup's answer does not depend on the lookups made before on the same engine: after one arbitrary earlier query
     (time_at with any beat and tag, bpm_at or hittable), time_at(q, tag) still equals the closed-form oracle"""
     import z3
@@ -62,6 +62,8 @@ def ob_history(shape, G, budget_s=120):
         V = tc.sym_timing(shape, G)
         k0 = symx.fresh_int("k0", -G, 3 * G); t0 = symx.fresh_int("tag0", 0, 6)
         kq = symx.fresh_int("kq", -G, 3 * G); tg = symx.fresh_int("tag", 0, 6)
+        if narrow:   # larger shapes: the earlier query ends a pause (or not), the measured one is asked with WARP or the default tag
+            symx.CTL.assume(z3.Or(t0 == 5, t0 == 6), z3.Or(tg == 0, tg == 5))
         eng = _engine(mods, tc.build_td(mods, V))
         prev = symx.choose("prev", 3)
         if prev == 0:
@@ -170,9 +172,9 @@ def obligations(tier):
         for s in tc.shapes(3):
             if s[0] >= 1:
                 obs.append(dict(name=f"bpm_at{s}/G{G}", func="ob_bpm_at", args=(s, G), budget_s=b, bounds=f"shape {s}"))
-        for s in [(0, 1, 0, 0), (0, 0, 1, 0), (0, 1, 0, 1), (0, 1, 1, 0)]:
-            obs.append(dict(name=f"history{s}/G6", func="ob_history", args=(s, 6), budget_s=b,
-                            bounds=f"shape {s}, ticks 0..6: one arbitrary earlier query (time_at any beat/tag, bpm_at, hittable) on the same engine, then time_at(q, tag) against the oracle"))
+        for s, g, nr in [((0, 1, 0, 0), 6, False), ((0, 0, 1, 0), 6, False), ((0, 1, 0, 1), 4, True), ((0, 1, 1, 0), 4, True)]:
+            obs.append(dict(name=f"history{s}/G{g}" + ("/narrow-tags" if nr else ""), func="ob_history", args=(s, g, nr), budget_s=b,
+                            bounds=f"shape {s}, ticks 0..{g}: one arbitrary earlier query (time_at any beat/tag, bpm_at, hittable) on the same engine, then time_at(q, tag) against the oracle"))
         # three warps (nested / overlapping / touching in every arrangement) need a third of a kind
         for s, g in (((0, 0, 0, 3), 8), ((0, 1, 0, 3), 4)):
             obs.append(dict(name=f"time_at{s}/G{g}/alltags", func="ob_time_at", args=(s, g, None), budget_s=b, bounds=f"shape {s}: three warps, ticks 0..{g}"))
